@@ -69,7 +69,13 @@ def glue_check(o):
         n.stop()
     o.distribution["process_boundary_calls"] = {k: (v or {}).get("result", {}).get("result") if isinstance(v, dict) and isinstance(v.get("result"), dict) else "NO HOOK RESULT" for k, v in seen.items()}
 
+def boundary_checks(o):
+    glue_check(o)
+    # "answered when the MPP timeout has elapsed" holds for the CONFIGURED timeout only if main.rs wires the option: real binary
+    from p_c11 import wiring_check
+    wiring_check(o)
+
 def run(tier, seed):
     extra = ("Process boundary: the real binary (fake lightningd, stdin chunked in 5-byte writes) receives %d htlc_accepted calls that cannot be decoded, carry out-of-range "
-             "numbers, malformed metadata or are plain forwards; each must be answered exactly once with a hook result. " % len(glue_requests()))
-    return run_property("C06", tier, seed, gen_for("C06"), rule=BASE_RULE + extra, assumptions=COMMON_ASSUME, profiles=("dev", "release"), extra_check=glue_check)
+             "numbers, malformed metadata or are plain forwards; each must be answered exactly once with a hook result; started with MPP timeouts 1/2/3 s and payment timeouts 60/7/1 s a partial HTLC is answered after the MPP timeout. " % len(glue_requests()))
+    return run_property("C06", tier, seed, gen_for("C06"), rule=BASE_RULE + extra, assumptions=COMMON_ASSUME, profiles=("dev", "release"), extra_check=boundary_checks)
